@@ -104,7 +104,12 @@ def gen_tree(rng, depth=0, p_unsafe=0.4):
                               ".git/hooks", "sibling", "../", "/",
                               "ABS:wt/.git/hooks", "dir", ".",
                               "ABS:outside/canary", "../outside-rel/canary",
-                              ".git/config", ".git/HEAD"])
+                              ".git/config", ".git/HEAD",
+                              # dangling: what the link names does not exist
+                              # (yet) -- writing through it would create it
+                              "ABS:outside/created", "../outside-rel/created",
+                              ".git/hooks/post-checkout", ".git/newfile",
+                              ".git/hooks/post-checkout"])
             ents.append({"n": name.hex(), "k": "link", "t": tgt})
         elif depth < 2:
             ents.append({"n": name.hex(), "k": "dir",
@@ -153,6 +158,11 @@ def mutate_tree(rng, ents):
             out.append(e)
         elif r < 0.5:
             continue
+        elif e["k"] == "link" and rng.random() < 0.4:
+            # the same name becomes a regular file
+            out.append({"n": e["n"], "k": "file",
+                        "mode": rng.choice([0o100644, 0o100755]),
+                        "c": rng.randrange(1000)})
         elif e["k"] == "link":
             out.append({"n": e["n"], "k": "dir", "e": [
                 {"n": rng.choice([b"hooks", b"pwn", b"config", b"x"]).hex(),
@@ -211,7 +221,9 @@ def gen_plan(seed, tier):
         ops.append(rng.choice(["checkout_branch", "checkout_force",
                                "reset_hard", "update_working_tree",
                                "reset_mixed_hard", "stash_pop", "apply_patch",
-                               "am", "switch", "restore"]))
+                               "am", "switch", "restore", "build_index",
+                               "reset_index", "reset_mixed_hard_prev",
+                               "reset_mixed_hard_prev", "checkout_paths"]))
     if rng.random() < 0.15:
         # the same tree again by another route: the index already lists it
         trees.append(trees[-1])
@@ -575,6 +587,29 @@ def run_plan(plan):
                                 porcelain.checkout(r, b"t%d" % i, force=True)
                             elif op == "reset_hard":
                                 porcelain.reset(r, "hard", commits[i])
+                            elif op == "reset_index":
+                                # (what clone uses, on top of what is there)
+                                r.get_worktree().reset_index(tree_id)
+                            elif op == "checkout_paths":
+                                paths = [pth for pth, _k, _e in
+                                         flat_entries(plan["trees"][i])]
+                                for pth in paths:
+                                    try:
+                                        porcelain.checkout(
+                                            r, commits[i], paths=[pth])
+                                    except Exception as e:  # noqa: BLE001
+                                        if is_injected(e):
+                                            raise
+                                        stats["probe:checkout_refused"] = 1
+                            elif op == "reset_mixed_hard_prev":
+                                # the index is moved to this tree without
+                                # touching the files, then everything goes
+                                # back to the previous tree: what the index
+                                # lists is removed from a work tree that
+                                # never had it
+                                porcelain.reset(r, "mixed", commits[i])
+                                porcelain.reset(r, "hard",
+                                                commits[max(0, i - 1)])
                             elif op == "reset_mixed_hard":
                                 # index filled from the tree first (no files
                                 # written), then materialised
